@@ -74,7 +74,7 @@ def ticket_generator(initial: int = 1) -> Generator[int, None, None]:
 async def cancel_task(task: Optional[asyncio.Task]):
     if task:
         task.cancel()
-        try:
-            await task
-        except asyncio.CancelledError:
-            pass
+        # Using gather instead of catching the CancelledError: this only
+        # suppresses the cancellation of the given task, a cancellation of the
+        # task calling this function still gets raised
+        await asyncio.gather(task, return_exceptions=True)
